@@ -720,6 +720,14 @@ func (f *Frame) sliceOp(x *ssa.Slice) {
 
 func (f *Frame) rangeInit(x *ssa.Range) {
 	vc := f.vc
+	if bt, isB := x.X.Type().Underlying().(*types.Basic); isB && bt.Info()&types.IsString != 0 {
+		// range over a string: the iterator is the string and a byte position (ghost key, Int)
+		key := "it:" + f.fnTag() + f.id + x.Name()
+		vc.regKey(key, "Int")
+		f.set(f.cur, key, "0")
+		f.vals[x] = f.val(x.X)
+		return
+	}
 	mt, ok := x.X.Type().Underlying().(*types.Map)
 	if !ok {
 		f.unknownValue(x, "range over "+x.X.Type().String())
@@ -739,6 +747,11 @@ func (f *Frame) rangeNext(x *ssa.Next) {
 	vc := f.vc
 	e := vc.eng
 	rg, ok := x.Iter.(*ssa.Range)
+	if ok && x.IsString {
+		if f.stringNext(x, rg) {
+			return
+		}
+	}
 	if !ok || x.IsString {
 		f.unknownTuple(x, "next over string")
 		return
@@ -764,6 +777,48 @@ func (f *Frame) rangeNext(x *ssa.Next) {
 	f.tuples[x] = []string{okc, kc, vcst}
 	f.assumeTypeInv(kc, mt.Key())
 	f.assumeTypeInv(vcst, mt.Elem())
+}
+
+// stringNext: one step of a range over a string. The character at the current
+// byte position is what utf8.DecodeRuneInString says about the rest of the
+// string (the abstract functions decRune / decWidth of the assumed contract,
+// with the same facts: width 1..4 within the string, ASCII decodes to itself);
+// the position advances by that width. rangepos() names the position in loop
+// clauses.
+func (f *Frame) stringNext(x *ssa.Next, rg *ssa.Range) bool {
+	vc := f.vc
+	var dr, dw *SpecFn
+	for _, sf := range vc.eng.spec.Specs {
+		switch sf.Name {
+		case "decRune":
+			dr = sf
+		case "decWidth":
+			dw = sf
+		}
+	}
+	if dr == nil || dw == nil {
+		return false
+	}
+	if _, err := vc.compileSpecFn(dr); err != nil {
+		return false
+	}
+	if _, err := vc.compileSpecFn(dw); err != nil {
+		return false
+	}
+	key := "it:" + f.fnTag() + f.id + rg.Name()
+	s := f.vals[rg]
+	pos := f.get(f.cur, key)
+	rest := S("ssub", s, pos, S("slen", s))
+	okc := vc.define(f.id+x.Name()+"ok", "Bool", S("<", pos, S("slen", s)))
+	w := vc.define(f.id+x.Name()+"w", "Int", S("sf!decWidth", rest))
+	r := vc.define(f.id+x.Name()+"r", "Int", S("sf!decRune", rest))
+	vc.assume(And(S("<=", "0", pos), S("<=", pos, S("slen", s))))
+	vc.assume(Imp(okc, And(S("<=", "1", w), S("<=", w, "4"), S("<=", S("+", pos, w), S("slen", s)), S("<=", "0", r), S("<=", r, "1114111"))))
+	vc.assume(Imp(And(okc, S("<", S("sbyte", s, pos), "128")), And(S("=", r, S("sbyte", s, pos)), S("=", w, "1"))))
+	vc.assume(Imp(And(okc, S(">=", S("sbyte", s, pos), "128")), S(">=", r, "128")))
+	f.set(f.cur, key, vc.define(key, "Int", Ite(okc, S("+", pos, w), pos)))
+	f.tuples[x] = []string{okc, pos, r}
+	return true
 }
 
 func (f *Frame) unknownTuple(x ssa.Value, why string) {
